@@ -1,10 +1,203 @@
-import QibProofs.Lemmas.PauliMat
-import QibModel.Encode
-/-! C11 — placeholder while the lemma files are being written (replaced below). -/
+import QibProofs.Lemmas.EncodeSum
+import QibProofs.Lemmas.EncodePrune
+import QibProofs.Lemmas.EncodeTotal
+import QibProofs.Lemmas.EncodeExtra
+/-!
+C11 — Jordan-Wigner encoding reproduces the operator exactly.
+
+Property theorems only (proofs are in `Lemmas/EncodeStrings.lean`, `EncodeLadder.lean`, `EncodeSum.lean`,
+`EncodePrune.lean`, `EncodeTotal.lean`). Everything is stated about the executable model `QibModel/Encode.lean`
+(run by `drv_encode`), which reuses the Pauli model `QibModel/Pauli.lean` whose phase tables and product formula
+are the generated definitions of `QibGen/PauliTables.lean`.
+
+Conventions. `L` sites, matrices in bit-function indexing `Matrix (Fin L → Bool) (Fin L → Bool) ℂ` (site 0 = outermost
+Kronecker factor, `C09_matEntry_flat`). A field operator is data: `fields` (fermionic?, number of sites) and `terms`
+(operator descriptions, shape and entries `(multi_index, coeff)` of the coefficient array in `nditer` order).
+`φ : α → ℂ` maps the weights into ℂ (`ScalarHom φ`; the driver's instance is `GQ.toC`, `GQ.scalarHom`).
+`refMat φ L op` is the field operator's own matrix `Σ_terms Σ_entries coeff • Π ladder(j, kind)` with
+`ladder L i kind = 1 ⊗ … ⊗ 1 ⊗ U ⊗ Z ⊗ … ⊗ Z` (sign string on LATER sites, `field_operator.py:201-217`).
+`fop.WF` is what the `FieldOperatorTerm` constructor guarantees (`coeffs.ndim == len(opdesc)`).
+-/
+open Complex Matrix
 namespace Qib.Encode
 open Qib.Pauli
 
-theorem C11_expandStep_length (ps : List PS) (a b : PS) : (expandStep ps a b).length = 2 * ps.length := by
-  simp [expandStep]; omega
+/-! ### the two strings per ladder operator -/
+
+/-- the strings of `jordan_wigner_encoding.py:21-27` as functions of the site: `s₀ = X_i Z_{>i}` (phase 0),
+`s₁ = Y_i Z_{>i}` with phase `q = 1` (creation) / `q = 3` (annihilation); all of length `L` -/
+theorem C11_jw_strings (L i k : ℕ) (hi : i < L) (hk : k < L) :
+    (s0 .jw L i).zf k = decide (i < k) ∧ (s0 .jw L i).xf k = decide (k = i) ∧ (s0 .jw L i).q = 0 ∧
+    (s1c .jw L i).zf k = decide (i ≤ k) ∧ (s1c .jw L i).xf k = decide (k = i) ∧ (s1c .jw L i).q = 1 ∧
+    (s1a .jw L i).zf k = decide (i ≤ k) ∧ (s1a .jw L i).xf k = decide (k = i) ∧ (s1a .jw L i).q = 3 ∧
+    (s0 .jw L i).HasLen L ∧ (s1c .jw L i).HasLen L ∧ (s1a .jw L i).HasLen L :=
+  ⟨jw_s0_zf L i k hi hk, jw_s0_xf L i k hi hk, rfl, jw_s1c_zf L i k hi hk, jw_s1c_xf L i k hi hk, rfl,
+    jw_s1a_zf L i k hi hk, jw_s1a_xf L i k hi hk, rfl, s0_hasLen .jw L i hi, s1c_hasLen .jw L i hi, s1a_hasLen .jw L i hi⟩
+
+/-- the reference ladder operator, entrywise: identity before site `i`, `U = |1⟩⟨0|` (creation) or `Uᴴ` on site `i`,
+`Z` on every LATER site; the annihilation operator is the adjoint of the creation operator -/
+theorem C11_ladder_def (L i : ℕ) (create : Bool) (r c : Fin L → Bool) :
+    ladder L i create r c = ∏ k : Fin L,
+      (if k.val < i then (1 : Matrix Bool Bool ℂ) else if k.val = i then (if create then createM else annihilM) else pauliZ) (r k) (c k) ∧
+    createM true false = 1 ∧ createM false false = 0 ∧ createM false true = 0 ∧ createM true true = 0 ∧
+    (ladder L i true)ᴴ = ladder L i false :=
+  ⟨rfl, by simp [createM], by simp [createM], by simp [createM], by simp [createM], ladder_conjTranspose L i⟩
+
+/-- `½ (s₀ + s₁)` with the code's signs is the reference ladder matrix, for every `L`, every site and both kinds -/
+theorem C11_jw_ladder (L i : ℕ) (hi : i < L) (create : Bool) :
+    (1 / 2 : ℂ) • ((ladderPair .jw L i create).1.mat L + (ladderPair .jw L i create).2.mat L) = ladder L i create :=
+  jw_ladder L i hi create
+
+/-- consequence: the reference ladder operators satisfy the canonical anticommutation relations -/
+theorem C11_ladder_car (L i j : ℕ) (hi : i < L) (hj : j < L) :
+    (ladder L i false * ladder L j true + ladder L j true * ladder L i false = if i = j then 1 else 0) ∧
+    ladder L i false * ladder L j false + ladder L j false * ladder L i false = 0 ∧
+    ladder L i true * ladder L j true + ladder L j true * ladder L i true = 0 := by
+  have := encLadder_car .jw L i j hi hj
+  simpa only [jw_ladder L i hi, jw_ladder L j hj] using this
+
+/-- and the number operator is `½ (1 - Z_i)` -/
+theorem C11_ladder_number (L i : ℕ) (hi : i < L) :
+    ladder L i true * ladder L i false =
+      (1 / 2 : ℂ) • (1 - tens (fun k : Fin L => if k.val = i then pauliZ else 1)) := by
+  have := encLadder_number .jw L i hi
+  simpa only [jw_ladder L i hi, numZ] using this
+
+/-! ### the product expansion -/
+
+/-- the strings produced for one coefficient sum to the ordered product of the `(s₀ + s₁)` matrices (induction over the
+operator count with `C09_mat_mul`); a successful expansion met only site indices `< L` -/
+theorem C11_expand_sum (enc : Enc) (L : ℕ) (ops : List Desc) (idx : List ℕ) (out : List PS)
+    (h : expand enc L ops idx [PS.identity L] = .ok out) :
+    (out.map (PS.mat L)).sum = stringProd enc L ops idx ∧ (∀ p ∈ out, p.HasLen L) := by
+  obtain ⟨h1, h2, _⟩ := expand_sum enc L ops idx _ out h (by
+    intro p hp; simp only [List.mem_singleton] at hp; subst hp; exact identity_hasLen L)
+  have hid : sumMat L [PS.identity L] = 1 := by simp [sumMat, identity_mat]
+  rw [hid, one_mul] at h1
+  exact ⟨h1, h2⟩
+
+/-- with one multi-index entry per operator, `2^-k` times that product is the product of the encoded ladder operators -/
+theorem C11_stringProd_weight (enc : Enc) (L : ℕ) (ops : List Desc) (idx : List ℕ) (h : idx.length = ops.length) :
+    ((1 / 2 : ℂ) ^ ops.length) • stringProd enc L ops idx = ladderProd enc L ops idx := stringProd_eq enc L ops idx h
+
+/-- moving the sign of every string into its weight and inserting with merge-on-insert adds `w • Σ matrices` -/
+theorem C11_addStrings_mat {α : Type} [EncScalar α] {φ : α → ℂ} (hφ : ScalarHom φ) (L : ℕ) (op : PauliOp α)
+    (strings : List PS) (w : α) :
+    PauliOp.mat φ L (addStrings op strings w) = PauliOp.mat φ L op + φ w • (strings.map (PS.mat L)).sum :=
+  addStrings_mat hφ L op strings w
+
+/-! ### the encoded operator has the matrix of the field operator -/
+
+/-- unfolding of the reference: `Σ_terms Σ_entries coeff • (ordered product of ladder operators)` -/
+theorem C11_refMat_def {α : Type} (φ : α → ℂ) (L : ℕ) (fop : FieldOp α) :
+    refMat φ L fop = (fop.terms.map fun t => (t.entries.map fun e => φ e.2 • refProd L t.ops e.1).sum).sum ∧
+    (∀ d ds j js, refProd L (d :: ds) (j :: js) = ladder L j (d.otype == .create) * refProd L ds js) ∧
+    refProd L [] [] = 1 := ⟨rfl, fun _ _ _ _ => rfl, rfl⟩
+
+theorem C11_encode_unfold {α : Type} [EncScalar α] (enc : Enc) (isZ : α → Bool) (fop : FieldOp α) (op : PauliOp α) :
+    encode enc isZ fop = .ok op ↔ ∃ raw, encodeRaw enc fop = .ok raw ∧ op = raw.removeZero isZ := by
+  unfold encode
+  cases h : encodeRaw enc fop with
+  | error e => simp
+  | ok raw => simp [eq_comm]
+
+/-- **C11, exact version** (`tol = 0`: the pruning test `isZ` only fires on weights that are zero):
+for every field operator on one fermionic field – any number of terms, any operator count and pattern, arbitrary
+complex coefficients, any lattice size – the Jordan-Wigner encoded Pauli operator has the matrix of the field operator -/
+theorem C11_encode_mat {α : Type} [EncScalar α] {φ : α → ℂ} (hφ : ScalarHom φ) (isZ : α → Bool)
+    (hz : ∀ w, isZ w = true → φ w = 0) (fop : FieldOp α) (op : PauliOp α)
+    (h : encode .jw isZ fop = .ok op) (hwf : fop.WF) :
+    ∃ L, fieldCheck fop = .ok L ∧ PauliOp.mat φ L op = refMat φ L fop := by
+  obtain ⟨raw, hraw, rfl⟩ := (C11_encode_unfold .jw isZ fop op).mp h
+  obtain ⟨L, hL, _, h2⟩ := encodeRaw_mat hφ .jw fop raw hraw hwf
+  refine ⟨L, hL, ?_⟩
+  rw [← h2 rfl]
+  exact PauliOp.removeZero_matG (PS.mat L) φ isZ hz raw
+
+/-- the same for the driver's scalars (Gaussian rationals), pruning with `abs(w) <= 0` -/
+theorem C11_encode_mat_GQ (fop : FieldOp GQ) (op : PauliOp GQ)
+    (h : encode .jw (fun w => w.absLe 0) fop = .ok op) (hwf : fop.WF) :
+    ∃ L, fieldCheck fop = .ok L ∧ PauliOp.mat GQ.toC L op = refMat GQ.toC L fop :=
+  C11_encode_mat GQ.scalarHom _ (fun w hw => GQ.absLe_zero w hw) fop op h hwf
+
+/-- **C11 with the pruning tolerance**: if the pruning test only fires on weights of modulus `≤ tol` then every matrix
+entry differs from the field operator's by at most `(number of pruned strings) · tol` -/
+theorem C11_encode_mat_tol {α : Type} [EncScalar α] {φ : α → ℂ} (hφ : ScalarHom φ) (isZ : α → Bool) (tol : ℝ)
+    (hz : ∀ w, isZ w = true → ‖φ w‖ ≤ tol) (fop : FieldOp α) (op : PauliOp α)
+    (h : encode .jw isZ fop = .ok op) (hwf : fop.WF) :
+    ∃ L raw, fieldCheck fop = .ok L ∧ encodeRaw .jw fop = .ok raw ∧ op = raw.removeZero isZ ∧
+      ∀ r c, ‖(PauliOp.mat φ L op - refMat φ L fop) r c‖ ≤ ((raw.length - op.length : ℕ) : ℝ) * tol := by
+  obtain ⟨raw, hraw, rfl⟩ := (C11_encode_unfold .jw isZ fop op).mp h
+  obtain ⟨L, hL, _, h2⟩ := encodeRaw_mat hφ .jw fop raw hraw hwf
+  refine ⟨L, raw, hL, hraw, rfl, fun r c => ?_⟩
+  have hsplit := PauliOp.removeZero_add_dropped (PS.mat L) φ isZ raw
+  have hd : PauliOp.mat φ L (raw.removeZero isZ) - refMat φ L fop = -PauliOp.mat φ L (raw.dropped isZ) := by
+    rw [← h2 rfl]; simp only [PauliOp.mat]; rw [← hsplit]; abel
+  have hlen : raw.length - (raw.removeZero isZ).length = (raw.dropped isZ).length := by
+    have := PauliOp.dropped_length isZ raw; omega
+  rw [hd, Matrix.neg_apply, norm_neg, hlen]
+  exact opMat_entry_norm_le φ L tol _ (fun e he => hz _ (PauliOp.dropped_isZ isZ raw e he)) r c
+
+/-- the driver's instance: Gaussian-rational weights, pruning with `abs(w) <= tol` for a rational `tol`
+(the harness passes the exact value of the literal `1e-14`) -/
+theorem C11_encode_mat_tol_GQ (tol : ℚ) (fop : FieldOp GQ) (op : PauliOp GQ)
+    (h : encode .jw (fun w => w.absLe tol) fop = .ok op) (hwf : fop.WF) :
+    ∃ L raw, fieldCheck fop = .ok L ∧ encodeRaw .jw fop = .ok raw ∧ op = raw.removeZero (fun w => w.absLe tol) ∧
+      ∀ r c, ‖(PauliOp.mat GQ.toC L op - refMat GQ.toC L fop) r c‖ ≤ ((raw.length - op.length : ℕ) : ℝ) * (tol : ℝ) :=
+  C11_encode_mat_tol GQ.scalarHom _ (tol : ℝ) (fun w hw => GQ.absLe_norm w tol hw) fop op h hwf
+
+/-! ### what is accepted and what is rejected -/
+
+/-- totality: with exactly one field, fermionic, `L` sites, every operator whose terms use fermionic operator types and
+non-empty coefficient arrays with one axis per operator and extents `≤ L` is encoded (no exception) -/
+theorem C11_encode_total {α : Type} [EncScalar α] (isZ : α → Bool) (fop : FieldOp α) (L : ℕ)
+    (hL : fieldCheck fop = .ok L) (hv : ∀ t ∈ fop.terms, t.Valid L) :
+    ∃ op, encode .jw isZ fop = .ok op ∧ fop.WF := by
+  obtain ⟨raw, hraw⟩ := encodeRaw_ok .jw fop L hL hv
+  exact ⟨raw.removeZero isZ, (C11_encode_unfold .jw isZ fop _).mpr ⟨raw, hraw, rfl⟩, fun t ht => (hv t ht).wf⟩
+
+/-- the field test: accepted iff exactly one field occurs in the terms and it is fermionic; its size is `L` -/
+theorem C11_fieldCheck {α : Type} [EncScalar α] (fop : FieldOp α) :
+    (∀ L, fieldCheck fop = .ok L ↔ ∃ f, fieldIds fop.terms = [f] ∧ fop.fields[f]? = some ⟨true, L⟩) ∧
+    (∀ e, fieldCheck fop = .error e → e = .notImplemented) :=
+  ⟨fieldCheck_ok_iff fop, fieldCheck_error fop⟩
+
+/-- error branches of the expansion: a non-fermionic operator type is a `RuntimeError`, a site index outside the lattice an
+`IndexError` (in the order in which the loop meets them) -/
+theorem C11_expand_errors (enc : Enc) (L : ℕ) (d : Desc) (ds : List Desc) (j : ℕ) (js : List ℕ) (acc : List PS) :
+    (d.otype = .other → expand enc L (d :: ds) (j :: js) acc = .error .runtimeError) ∧
+    (d.otype ≠ .other → ¬ j < L → expand enc L (d :: ds) (j :: js) acc = .error .indexError) ∧
+    expand enc L [] (j :: js) acc = .error .indexError := by
+  refine ⟨fun h => by simp [expand, h], fun h hj => ?_, rfl⟩
+  cases hd : d.otype with
+  | other => exact absurd hd h
+  | create => simp [expand, hd, hj]
+  | annihil => simp [expand, hd, hj]
+
+/-! ### non-vacuity -/
+
+/-- a hopping term plus a constant on three sites -/
+def exampleOp : FieldOp GQ :=
+  ⟨[⟨true, 3⟩], [⟨[], [], [([], ⟨5 / 2, 0⟩)]⟩,
+    ⟨[⟨0, .create⟩, ⟨0, .annihil⟩], [3, 3], [([0, 1], ⟨1, 1 / 2⟩), ([1, 0], ⟨1, -1 / 2⟩), ([2, 2], 0)]⟩]⟩
+
+example : fieldCheck exampleOp = .ok 3 := by decide
+example : exampleOp.WF := by
+  intro t ht e he
+  simp only [exampleOp, List.mem_cons, List.mem_nil_iff, or_false] at ht
+  rcases ht with rfl | rfl <;> simp only [List.mem_cons, List.mem_nil_iff, or_false] at he <;>
+    rcases he with rfl | rfl | rfl <;> rfl
+example : (match encode .jw (fun w => w.absLe 0) exampleOp with | .ok op => op.length | .error _ => 0) = 5 := by decide +kernel
+example : (s0 .jw 3 1, s1c .jw 3 1, s1a .jw 3 1) =
+    (⟨[false, false, true], [false, true, false], 0⟩, ⟨[false, true, true], [false, true, false], 1⟩,
+     ⟨[false, true, true], [false, true, false], 3⟩) := by decide
+example : encode .jw (fun w => w.absLe 0) (⟨[⟨true, 2⟩, ⟨true, 2⟩], [⟨[⟨0, .create⟩, ⟨1, .annihil⟩], [2, 2], []⟩]⟩ : FieldOp GQ) =
+    .error .notImplemented := by decide
+example : encode .jw (fun w => w.absLe 0) (⟨[⟨true, 2⟩], [⟨[⟨0, .other⟩], [2], [([0], 1)]⟩]⟩ : FieldOp GQ) =
+    .error .runtimeError := by decide +kernel
+example : encode .jw (fun w => w.absLe 0) (⟨[⟨true, 2⟩], [⟨[⟨0, .create⟩], [3], [([2], 1)]⟩]⟩ : FieldOp GQ) =
+    .error .indexError := by decide +kernel
+example : encode .jw (fun w => w.absLe 0) (⟨[⟨true, 2⟩], [⟨[⟨0, .create⟩], [0], []⟩]⟩ : FieldOp GQ) =
+    .error .valueError := by decide +kernel
 
 end Qib.Encode
